@@ -1227,3 +1227,389 @@ Proof.
   - vm_compute. reflexivity.
   - eexists. split; vm_compute; reflexivity.
 Qed.
+
+(* ------------------------------------------------------------------ resp_values_equal is equality *)
+Lemma bytes_eqb_spec a b : bytes_eqb a b = true <-> a = b.
+Proof.
+  split; [apply bytes_eqb_true|]. intros ->. induction b as [|x b IH]; [reflexivity|].
+  cbn. now rewrite N.eqb_refl, IH.
+Qed.
+
+Lemma resp_eqb_spec : forall a b, resp_eqb a b = true <-> a = b.
+Proof.
+  induction a as [s|s|z| |s| |l IH] using resp_ind2; intros b; destruct b; cbn [resp_eqb];
+    try (split; [discriminate|discriminate]); try (split; reflexivity).
+  - rewrite bytes_eqb_spec. split; congruence.
+  - rewrite bytes_eqb_spec. split; congruence.
+  - rewrite Z.eqb_eq. split; congruence.
+  - rewrite bytes_eqb_spec. split; congruence.
+  - revert l0. induction IH as [|x l Hx Hl IHl]; intros [|y k].
+    + split; reflexivity.
+    + split; discriminate.
+    + split; discriminate.
+    + rewrite andb_true_iff, Hx, IHl. split.
+      * intros [-> H]. inversion H. reflexivity.
+      * intros H. inversion H. split; reflexivity.
+Qed.
+
+Lemma resp_eqb_false a b : resp_eqb a b = false <-> a <> b.
+Proof.
+  split.
+  - intros H E. apply resp_eqb_spec in E. congruence.
+  - intros H. destruct (resp_eqb a b) eqn:E; [|reflexivity]. apply resp_eqb_spec in E. contradiction.
+Qed.
+
+(* ------------------------------------------------------------------ transactions (C05) *)
+Section Tx.
+  Variable St : Type.
+  Variable cmd : Type.
+  Variable decode_cmd : resp -> cmd + bytes.
+  Variable exec : St -> cmd -> St * resp.
+  Variable kind : cmd -> ckind.
+  Variable cmd_get : bytes -> cmd.
+  Variable stub_reply : cmd -> resp.
+
+  Notation HF := (handle_frame St cmd decode_cmd exec kind cmd_get stub_reply).
+  Notation DISPATCH := (dispatch St cmd exec kind cmd_get stub_reply).
+  Notation core := (core St cmd).
+  Notation RQ := (run_queue St cmd exec).
+  Notation GETR := (get_reply St cmd exec cmd_get).
+  Notation STEP2 := (step2 St cmd decode_cmd exec kind cmd_get stub_reply).
+  Notation RUN2 := (run2 St cmd decode_cmd exec kind cmd_get stub_reply).
+  Notation ACMDS := (a_cmds cmd decode_cmd).
+
+  (* Between MULTI and EXEC nothing a client sends (other than EXEC) touches the backend ... *)
+  Lemma queued_no_effect (c : core) v : in_tx _ (txs _ _ c) = true ->
+    (forall cm, decode_cmd v = inl cm -> kind cm <> KExec) ->
+    st _ _ (HF c v) = st _ _ c.
+  Proof.
+    intros Ht Hne. unfold handle_frame. destruct (decode_cmd v) as [cm|e] eqn:E; [|reflexivity].
+    specialize (Hne cm eq_refl). unfold dispatch. rewrite Ht.
+    destruct (kind cm); try reflexivity. contradiction.
+  Qed.
+
+  (* ... and a queueable command is answered QUEUED and appended to the queue, nothing else *)
+  Lemma queued_reply (c : core) cm : in_tx _ (txs _ _ c) = true -> queueable (kind cm) ->
+    DISPATCH c cm =
+    mkCore _ _ (st _ _ c)
+           (mkTx _ true (queue _ (txs _ _ c) ++ [cm]) (tx_err _ (txs _ _ c)) (watched _ (txs _ _ c)))
+           (outp _ _ c ++ [R_QUEUED]).
+  Proof. intros Ht [H|[H|H]]; unfold dispatch; rewrite Ht, H; reflexivity. Qed.
+
+  (* a queue-time error (command-parse error, unknown command, channel stub) only marks the
+     transaction: the backend, the queue and the watch list are untouched *)
+  Definition marked (c c' : core) : Prop :=
+    st _ _ c' = st _ _ c /\ tx_err _ (txs _ _ c') = true /\ in_tx _ (txs _ _ c') = true /\
+    queue _ (txs _ _ c') = queue _ (txs _ _ c) /\ watched _ (txs _ _ c') = watched _ (txs _ _ c) /\
+    exists r, outp _ _ c' = outp _ _ c ++ [r] /\ r <> R_QUEUED.
+
+  Lemma queue_time_parse_error (c : core) v e : in_tx _ (txs _ _ c) = true ->
+    decode_cmd v = inr e -> marked c (HF c v).
+  Proof.
+    intros Ht E. unfold marked, handle_frame. rewrite E, Ht. cbn. repeat split.
+    eexists; split; [reflexivity|]. unfold err_into. discriminate.
+  Qed.
+
+  Lemma queue_time_unknown (c : core) v cm : in_tx _ (txs _ _ c) = true ->
+    decode_cmd v = inl cm -> (kind cm = KStubChan \/ exists n, kind cm = KUnknown n) -> marked c (HF c v).
+  Proof.
+    intros Ht E Hk. unfold marked, handle_frame. rewrite E. unfold dispatch. rewrite Ht.
+    destruct Hk as [Hk|[n Hk]]; rewrite Hk; cbn; repeat split; eexists; split; try reflexivity; discriminate.
+  Qed.
+
+  Lemma run_queue_length : forall q s, length (snd (RQ s q)) = length q.
+  Proof.
+    induction q as [|c q IH]; intros s; [reflexivity|]. cbn [run_queue].
+    destruct (exec s c) as [s1 r]. specialize (IH s1). destruct (RQ s1 q). cbn in *. now rewrite IH.
+  Qed.
+
+  (* consecutive, in order; the reply of one command (error or not) does not influence whether the
+     later ones run *)
+  Lemma run_queue_snoc : forall q s c,
+    RQ s (q ++ [c]) =
+    (fst (exec (fst (RQ s q)) c), snd (RQ s q) ++ [snd (exec (fst (RQ s q)) c)]).
+  Proof.
+    induction q as [|d q IH]; intros s c; cbn [run_queue app].
+    - cbn [fst snd app]. destruct (exec s c). reflexivity.
+    - destruct (exec s d) as [s1 r]. rewrite IH. destruct (RQ s1 q). cbn. reflexivity.
+  Qed.
+
+  (* the same commands sent one after the other outside a transaction (a twin connection) *)
+  Lemma run_queue_eq_twin : forall q (c : core),
+    in_tx _ (txs _ _ c) = false -> Forall (fun x => kind x = KPlain) q ->
+    fold_left DISPATCH q c =
+    mkCore _ _ (fst (RQ (st _ _ c) q)) (txs _ _ c) (outp _ _ c ++ snd (RQ (st _ _ c) q)).
+  Proof.
+    induction q as [|x q IH]; intros c Ht Hq.
+    - cbn. rewrite app_nil_r. now destruct c.
+    - inversion Hq as [|x' q' Hx Hq']; subst. cbn [fold_left run_queue].
+      unfold dispatch at 2. rewrite Ht, Hx. destruct (exec (st St cmd c) x) as [s1 r].
+      rewrite IH; [|exact Ht|exact Hq']. cbn [st txs outp].
+      destruct (RQ s1 q). cbn. now rewrite <- app_assoc.
+  Qed.
+
+  (* EXEC *)
+  Lemma exec_applies (c : core) cm s1 :
+    in_tx _ (txs _ _ c) = true -> tx_err _ (txs _ _ c) = false -> kind cm = KExec ->
+    watch_unchanged St cmd exec cmd_get (st _ _ c) (watched _ (txs _ _ c)) = (s1, true) ->
+    DISPATCH c cm = mkCore _ _ (fst (RQ s1 (queue _ (txs _ _ c)))) (tx_idle cmd)
+                           (outp _ _ c ++ [RArr (snd (RQ s1 (queue _ (txs _ _ c))))]).
+  Proof.
+    intros Ht He Hk Hw. unfold dispatch. rewrite Ht, Hk, He, Hw.
+    now destruct (RQ s1 (queue cmd (txs St cmd c))).
+  Qed.
+
+  Lemma exec_watch_failed (c : core) cm s1 :
+    in_tx _ (txs _ _ c) = true -> tx_err _ (txs _ _ c) = false -> kind cm = KExec ->
+    watch_unchanged St cmd exec cmd_get (st _ _ c) (watched _ (txs _ _ c)) = (s1, false) ->
+    DISPATCH c cm = mkCore _ _ s1 (tx_idle cmd) (outp _ _ c ++ [RNilArr]).
+  Proof. intros Ht He Hk Hw. unfold dispatch. now rewrite Ht, Hk, He, Hw. Qed.
+
+  Lemma exec_aborts (c : core) cm :
+    in_tx _ (txs _ _ c) = true -> tx_err _ (txs _ _ c) = true -> kind cm = KExec ->
+    DISPATCH c cm = mkCore _ _ (st _ _ c) (tx_idle cmd) (outp _ _ c ++ [R_EXECABORT]).
+  Proof. intros Ht He Hk. unfold dispatch. now rewrite Ht, Hk, He. Qed.
+
+  Lemma exec_leaves_idle (c : core) cm :
+    in_tx _ (txs _ _ c) = true -> kind cm = KExec -> txs _ _ (DISPATCH c cm) = tx_idle cmd.
+  Proof.
+    intros Ht Hk. unfold dispatch. rewrite Ht, Hk. destruct (tx_err cmd (txs St cmd c)); [reflexivity|].
+    destruct (watch_unchanged St cmd exec cmd_get (st St cmd c) (watched cmd (txs St cmd c))) as [s1 b].
+    destruct b; [|reflexivity]. now destruct (RQ s1 (queue cmd (txs St cmd c))).
+  Qed.
+
+  Lemma discard_resets (c : core) cm :
+    in_tx _ (txs _ _ c) = true -> kind cm = KDiscard ->
+    DISPATCH c cm = mkCore _ _ (st _ _ c) (tx_idle cmd) (outp _ _ c ++ [R_OK]).
+  Proof. intros Ht Hk. unfold dispatch. now rewrite Ht, Hk. Qed.
+
+  Lemma nested_multi_rejected (c : core) cm :
+    in_tx _ (txs _ _ c) = true -> kind cm = KMulti ->
+    DISPATCH c cm = mkCore _ _ (st _ _ c) (txs _ _ c) (outp _ _ c ++ [R_NESTED]).
+  Proof. intros Ht Hk. unfold dispatch. now rewrite Ht, Hk. Qed.
+
+  Lemma watch_in_multi_rejected (c : core) cm ks :
+    in_tx _ (txs _ _ c) = true -> kind cm = KWatch ks ->
+    DISPATCH c cm = mkCore _ _ (st _ _ c) (txs _ _ c) (outp _ _ c ++ [R_WATCH_IN_MULTI]).
+  Proof. intros Ht Hk. unfold dispatch. now rewrite Ht, Hk. Qed.
+
+  (* ---- with a backend whose GET is read-only *)
+  Hypothesis get_read_only : forall s k, fst (exec s (cmd_get k)) = s.
+
+  Lemma snapshot_ro : forall ks s,
+    snapshot St cmd exec cmd_get s ks = (s, map (fun k => (k, GETR s k)) ks).
+  Proof.
+    induction ks as [|k ks IH]; intros s; [reflexivity|]. cbn [snapshot map]. unfold get_reply.
+    pose proof (get_read_only s k) as H. destruct (exec s (cmd_get k)) as [s1 r]. cbn in H. subst s1.
+    rewrite IH. reflexivity.
+  Qed.
+
+  Lemma watch_unchanged_ro : forall w s,
+    watch_unchanged St cmd exec cmd_get s w =
+    (s, forallb (fun p => resp_eqb (GETR s (fst p)) (snd p)) w).
+  Proof.
+    induction w as [|[k old] w IH]; intros s; [reflexivity|]. cbn [watch_unchanged forallb fst snd].
+    unfold get_reply at 1. pose proof (get_read_only s k) as H.
+    destruct (exec s (cmd_get k)) as [s1 r]. cbn in H. subst s1. cbn [snd].
+    destruct (resp_eqb r old); [apply IH|reflexivity].
+  Qed.
+
+  (* EXEC answers nil exactly when some watched key's GET reply differs from the snapshot *)
+  Lemma watch_iff_get_reply_changed (c : core) cm :
+    in_tx _ (txs _ _ c) = true -> tx_err _ (txs _ _ c) = false -> kind cm = KExec ->
+    let c' := DISPATCH c cm in
+    let s := st _ _ c in
+    let q := queue _ (txs _ _ c) in
+    ((exists k old, In (k, old) (watched _ (txs _ _ c)) /\ GETR s k <> old) ->
+       c' = mkCore _ _ s (tx_idle cmd) (outp _ _ c ++ [RNilArr])) /\
+    ((forall k old, In (k, old) (watched _ (txs _ _ c)) -> GETR s k = old) ->
+       c' = mkCore _ _ (fst (RQ s q)) (tx_idle cmd) (outp _ _ c ++ [RArr (snd (RQ s q))])).
+  Proof.
+    intros Ht He Hk. cbv zeta. split.
+    - intros (k & old & Hin & Hne). apply exec_watch_failed; auto.
+      rewrite watch_unchanged_ro. f_equal.
+      destruct (forallb _ _) eqn:E; [|reflexivity]. rewrite forallb_forall in E.
+      specialize (E _ Hin). cbn in E. apply resp_eqb_spec in E. contradiction.
+    - intros Hall. apply exec_applies; auto. rewrite watch_unchanged_ro. f_equal.
+      apply forallb_forall. intros [k old] Hin. cbn. apply resp_eqb_spec. now apply Hall.
+  Qed.
+
+  (* ---- two clients *)
+  Lemma step2_B_txa y v : txa _ _ (STEP2 y false v) = txa _ _ y /\ outa _ _ (STEP2 y false v) = outa _ _ y.
+  Proof. split; reflexivity. Qed.
+
+  Lemma run2_B_only : forall sched y, Forall (fun p => fst p = false) sched ->
+    txa _ _ (RUN2 y sched) = txa _ _ y /\ outa _ _ (RUN2 y sched) = outa _ _ y.
+  Proof.
+    induction sched as [|[w v] sched IH]; intros y H; [split; reflexivity|].
+    inversion H as [|p l Hp Hl]; subst. cbn in Hp. subst w. unfold run2 in *. cbn [fold_left fst snd].
+    destruct (IH (STEP2 y false v) Hl) as [H1 H2]. rewrite H1, H2. split; reflexivity.
+  Qed.
+
+  (* while A queues, whatever B does in between: A's transaction state is its queue so far *)
+  Lemma run2_queueing : forall sched y,
+    in_tx _ (txa _ _ y) = true ->
+    Forall (fun p => fst p = true -> exists cm, decode_cmd (snd p) = inl cm /\ queueable (kind cm)) sched ->
+    txa _ _ (RUN2 y sched) =
+      mkTx _ true (queue _ (txa _ _ y) ++ ACMDS sched) (tx_err _ (txa _ _ y)) (watched _ (txa _ _ y)) /\
+    outa _ _ (RUN2 y sched) = outa _ _ y ++ map (fun _ => R_QUEUED) (ACMDS sched).
+  Proof.
+    induction sched as [|[w v] sched IH]; intros y Ht H.
+    - unfold run2, a_cmds. cbn. rewrite !app_nil_r. split; [|reflexivity].
+      destruct (txa St cmd y); cbn in *. now subst.
+    - inversion H as [|p l Hp Hl]; subst. unfold run2 in *. cbn [fold_left fst snd].
+      destruct w.
+      + destruct (Hp eq_refl) as (cm & Hd & Hq). cbn [snd] in Hd.
+        assert (Hstep : STEP2 y true v =
+                  mkSys _ _ (sst _ _ y)
+                        (mkTx _ true (queue _ (txa _ _ y) ++ [cm]) (tx_err _ (txa _ _ y)) (watched _ (txa _ _ y)))
+                        (txb _ _ y) (outa _ _ y ++ [R_QUEUED]) (outb _ _ y)).
+        { unfold step2. unfold handle_frame. rewrite Hd. rewrite queued_reply; [reflexivity|exact Ht|exact Hq]. }
+        destruct (IH (STEP2 y true v)) as [H1 H2]; [rewrite Hstep; reflexivity|exact Hl|].
+        rewrite H1, H2, Hstep. cbn [txa outa queue tx_err watched].
+        unfold a_cmds. cbn [flat_map fst snd]. rewrite Hd. cbn [app map]. rewrite <- !app_assoc. split; reflexivity.
+      + destruct (IH (STEP2 y false v)) as [H1 H2]; [exact Ht|exact Hl|].
+        rewrite H1, H2. unfold a_cmds. cbn [flat_map fst snd app]. split; reflexivity.
+  Qed.
+
+  (* WATCH ks | anything by B | MULTI | A queues, B does anything, in any interleaving | EXEC *)
+  Theorem watch_multi_exec_two_clients y ks vw cw vm cmu ve ce sched1 sched2 :
+    txa _ _ y = tx_idle cmd ->
+    decode_cmd vw = inl cw -> kind cw = KWatch ks ->
+    decode_cmd vm = inl cmu -> kind cmu = KMulti ->
+    decode_cmd ve = inl ce -> kind ce = KExec ->
+    Forall (fun p => fst p = false) sched1 ->
+    Forall (fun p => fst p = true -> exists cm, decode_cmd (snd p) = inl cm /\ queueable (kind cm)) sched2 ->
+    let y1 := STEP2 y true vw in
+    let y2 := RUN2 y1 sched1 in
+    let y3 := STEP2 y2 true vm in
+    let y4 := RUN2 y3 sched2 in
+    let y5 := STEP2 y4 true ve in
+    let q := ACMDS sched2 in
+    txa _ _ y5 = tx_idle cmd /\
+    ((exists k, In k ks /\ GETR (sst _ _ y4) k <> GETR (sst _ _ y) k) ->
+       sst _ _ y5 = sst _ _ y4 /\ outa _ _ y5 = outa _ _ y4 ++ [RNilArr]) /\
+    ((forall k, In k ks -> GETR (sst _ _ y4) k = GETR (sst _ _ y) k) ->
+       sst _ _ y5 = fst (RQ (sst _ _ y4) q) /\ outa _ _ y5 = outa _ _ y4 ++ [RArr (snd (RQ (sst _ _ y4) q))] /\
+       length (snd (RQ (sst _ _ y4) q)) = length q).
+  Proof.
+    intros Hidle Hdw Hkw Hdm Hkm Hde Hke HB HQ. cbv zeta.
+    set (snap := map (fun k => (k, GETR (sst _ _ y) k)) ks).
+    (* after WATCH *)
+    assert (H1 : txa _ _ (STEP2 y true vw) = mkTx _ false [] false snap).
+    { unfold step2, handle_frame. rewrite Hdw. unfold dispatch. rewrite Hidle. cbn [in_tx tx_idle]. rewrite Hkw.
+      cbn [st]. rewrite snapshot_ro. reflexivity. }
+    (* B's steps *)
+    destruct (run2_B_only sched1 (STEP2 y true vw) HB) as [H2 _].
+    (* MULTI *)
+    set (y2 := RUN2 (STEP2 y true vw) sched1) in *.
+    assert (H3 : txa _ _ (STEP2 y2 true vm) = mkTx _ true [] false snap).
+    { unfold step2, handle_frame. rewrite Hdm. unfold dispatch. rewrite H2, H1. cbn [in_tx]. rewrite Hkm. reflexivity. }
+    set (y3 := STEP2 y2 true vm) in *.
+    destruct (run2_queueing sched2 y3) as [H4 _]; [now rewrite H3|exact HQ|].
+    rewrite H3 in H4. cbn [queue tx_err watched app] in H4.
+    set (y4 := RUN2 y3 sched2) in *.
+    (* EXEC *)
+    pose proof (watch_iff_get_reply_changed (mkCore _ _ (sst _ _ y4) (txa _ _ y4) (outa _ _ y4)) ce) as Hx.
+    cbn [txs st outp] in Hx. rewrite H4 in Hx. cbn [in_tx tx_err queue watched] in Hx.
+    specialize (Hx eq_refl eq_refl Hke). cbv zeta in Hx. destruct Hx as [Hx1 Hx2].
+    assert (Hs5 : STEP2 y4 true ve =
+              let c := DISPATCH (mkCore _ _ (sst _ _ y4) (mkTx _ true (ACMDS sched2) false snap) (outa _ _ y4)) ce in
+              mkSys _ _ (st _ _ c) (txs _ _ c) (txb _ _ y4) (outp _ _ c) (outb _ _ y4)).
+    { unfold step2, handle_frame. rewrite Hde, H4. reflexivity. }
+    rewrite Hs5. cbv zeta. split; [|split].
+    - cbn [txa]. apply exec_leaves_idle; [reflexivity|exact Hke].
+    - intros (k & Hin & Hne). rewrite Hx1; [split; reflexivity|].
+      exists k, (GETR (sst _ _ y) k). split; [|exact Hne]. unfold snap. apply in_map_iff. eauto.
+    - intros Hall. rewrite Hx2.
+      + cbn [st outp]. repeat split. apply run_queue_length.
+      + intros k old Hin. unfold snap in Hin. apply in_map_iff in Hin. destruct Hin as (k' & Heq & Hin).
+        inversion Heq; subst. now apply Hall.
+  Qed.
+End Tx.
+
+(* ------------------------------------------------------------------ WATCH over the mini backend *)
+Lemma mexec_get_read_only : forall (s : list (bytes * mval)) k, fst (mexec s (CGet k)) = s.
+Proof. intros s k. cbn [mexec]. destruct (lookup k s) as [[]|]; reflexivity. Qed.
+
+(* a GET reply identifies the value of a key unless the key holds a non-string at both instants *)
+Lemma get_reply_vs_value sW sE k : nonstring_at_both sW sE k = false ->
+  (mget_reply sW k = mget_reply sE k <-> value_of sW k = value_of sE k).
+Proof.
+  unfold nonstring_at_both, holds_nonstring, mget_reply, get_reply, value_of. cbn [mexec].
+  destruct (lookup k sW) as [[x|x|x|x|x]|]; destruct (lookup k sE) as [[z|z|z|z|z]|]; cbn [snd andb];
+    intros H; try discriminate H; split; intros E; try discriminate E; try reflexivity; try congruence.
+Qed.
+
+Section MiniTwoClients.
+  Variables (y : sys (list (bytes * mval)) mcmd) (ks : list bytes) (vw vm ve : resp)
+            (sched1 sched2 : list (bool * resp)).
+  Hypothesis Hidle : txa _ _ y = tx_idle mcmd.
+  Hypothesis Hw : mdecode vw = inl (CWatch ks).
+  Hypothesis Hm : mdecode vm = inl CMulti.
+  Hypothesis He : mdecode ve = inl CExec.
+  Hypothesis HB : Forall (fun p => fst p = false) sched1.
+  Hypothesis HQ : Forall (fun p => fst p = true -> exists cm, mdecode (snd p) = inl cm /\ queueable (mkind cm)) sched2.
+
+  Let y1 := mstep2 y true vw.
+  Let y2 := mrun2 y1 sched1.
+  Let y3 := mstep2 y2 true vm.
+  Let y4 := mrun2 y3 sched2.
+  Let y5 := mstep2 y4 true ve.
+  Let q := a_cmds mcmd mdecode sched2.
+
+  (* If no watched key holds a non-string value at both instants: EXEC returns nil and applies
+     nothing iff the value of some watched key at EXEC differs from its value at WATCH; otherwise it
+     applies the whole queue, consecutively, one result per queued command. *)
+  Lemma mini_watch_iff_changed :
+    (forall k, In k ks -> nonstring_at_both (sst _ _ y) (sst _ _ y4) k = false) ->
+    ((exists k, In k ks /\ value_of (sst _ _ y4) k <> value_of (sst _ _ y) k) ->
+       sst _ _ y5 = sst _ _ y4 /\ outa _ _ y5 = outa _ _ y4 ++ [RNilArr]) /\
+    ((forall k, In k ks -> value_of (sst _ _ y4) k = value_of (sst _ _ y) k) ->
+       sst _ _ y5 = fst (run_queue _ _ mexec (sst _ _ y4) q) /\
+       outa _ _ y5 = outa _ _ y4 ++ [RArr (snd (run_queue _ _ mexec (sst _ _ y4) q))] /\
+       length (snd (run_queue _ _ mexec (sst _ _ y4) q)) = length q).
+  Proof.
+    intros Hcls.
+    destruct (watch_multi_exec_two_clients _ _ mdecode mexec mkind CGet mstub_reply mexec_get_read_only
+                y ks vw (CWatch ks) vm CMulti ve CExec sched1 sched2
+                Hidle Hw eq_refl Hm eq_refl He eq_refl HB HQ) as (_ & H1 & H2).
+    split.
+    - intros (k & Hin & Hne). apply H1. exists k. split; [exact Hin|].
+      intros E. apply Hne. symmetry. apply (get_reply_vs_value _ _ k (Hcls k Hin)). symmetry. exact E.
+    - intros Hall. apply H2. intros k Hin. symmetry. apply (get_reply_vs_value _ _ k (Hcls k Hin)).
+      symmetry. now apply Hall.
+  Qed.
+End MiniTwoClients.
+
+(* finding C05-watch-nonstring: a watched LIST modified in place by another client between WATCH and
+   EXEC is not detected - both snapshots are the same WRONGTYPE error - and the transaction applies *)
+Definition b_ (s : string) : bytes := str s.
+Definition refute_sched : list (bool * resp) :=
+  [ (false, frame [b_ "LPUSH"; b_ "k"; b_ "a"]);                 (* B creates the list *)
+    (true,  frame [b_ "WATCH"; b_ "k"]);                          (* A watches it *)
+    (false, frame [b_ "LPUSH"; b_ "k"; b_ "b"]);                  (* B modifies it in place *)
+    (true,  frame [b_ "MULTI"]);
+    (true,  frame [b_ "SET"; b_ "j"; b_ "1"]);
+    (true,  frame [b_ "EXEC"]) ].
+
+Lemma watch_nonstring_refuted_witness :
+  let sW := sst _ _ (mrun2 (msys_init []) (firstn 2 refute_sched)) in
+  let sE := sst _ _ (mrun2 (msys_init []) (firstn 5 refute_sched)) in
+  let yF := mrun2 (msys_init []) refute_sched in
+  nonstring_at_both sW sE (b_ "k") = true /\
+  value_of sE (b_ "k") <> value_of sW (b_ "k") /\
+  last (outa _ _ yF) RNilArr = RArr [RSimple (str "OK")] /\
+  value_of (sst _ _ yF) (b_ "j") = Some (VStr (b_ "1")).
+Proof. cbv zeta. repeat split; try (vm_compute; reflexivity). vm_compute. discriminate. Qed.
+
+Lemma nonvacuous_c05 :
+  let A (l : list string) := (true, frame (map str l)) in
+  let B (l : list string) := (false, frame (map str l)) in
+  let body := [A ["MULTI"]; A ["INCR"; "n"]; A ["LPUSH"; "n"; "a"]; A ["SET"; "j"; "1"]; A ["EXEC"]]%string in
+  let y1 := mrun2 (msys_init []) (app [A ["WATCH"; "k"]; B ["SET"; "k"; "x"]]%string body) in
+  let y2 := mrun2 (msys_init []) (app [A ["WATCH"; "k"]; B ["GET"; "k"]]%string body) in
+  last (outa _ _ y1) R_OK = RNilArr /\ value_of (sst _ _ y1) (str "j") = None /\
+  last (outa _ _ y2) R_OK = RArr [RInt 1; WRONGTYPE; RSimple (str "OK")] /\
+  value_of (sst _ _ y2) (str "j") = Some (VStr (str "1")).
+Proof. cbv zeta. repeat split; vm_compute; reflexivity. Qed.
